@@ -494,6 +494,60 @@ Proof.
   replace (h <=? index * size) with true by lia. split; reflexivity.
 Qed.
 
+(* the one index the `_exact` lemmas leave out when the chain is longer than (2^32-1)*size: pageIndex+1 wraps to 0 in
+   uint32, the window starts above the frontier and the reply is empty *)
+Lemma by_page_top_index h size :
+  0 < h < two63 - 1 -> 0 < size <= RpcMaxPageSize ->
+  acc_by_page h (two32 - 1) size = (0, [], h) /\ mom_by_page h (two32 - 1) size = (0, [], h).
+Proof.
+  intros Hh Hs. split.
+  - unfold acc_by_page.
+    replace (RpcMaxPageSize <? size) with false by lia.
+    replace (h =? 0) with false by lia.
+    unfold by_page. rewrite page_window_top_index by assumption.
+    unfold acc_by_height. unfold RpcMaxPageSize, RpcMaxCountSize, two63, two32 in *.
+    replace (h + 1 =? 0) with false by lia. replace (1024 <? size) with false by lia.
+    replace (h =? 0) with false by lia.
+    rewrite more_by_height_exact by (unfold two63, two64; lia).
+    unfold window. rewrite filter_zseq_none by lia. cbn [Z.eqb rev]. reflexivity.
+  - unfold mom_by_page.
+    replace (RpcMaxPageSize <? size) with false by lia.
+    unfold by_page. rewrite page_window_top_index by assumption.
+    destruct (mom_by_height h (h + 1) size) as [[e l] c] eqn:Em.
+    apply mom_by_height_spec in Em; unfold in_u64, RpcMaxPageSize, RpcMaxCountSize, two63, two64, two32 in *; try lia.
+    destruct Em as [[_ Hz]|[[_ Hz]|[He [_ [_ [Hc Hl]]]]]]; try lia.
+    subst e c. rewrite mom_window_cases in Hl by (unfold RpcMaxCountSize, two63, two64; lia).
+    unfold window in Hl. rewrite filter_zseq_none in Hl by lia. subst l. cbn [Z.eqb rev]. reflexivity.
+Qed.
+
+(* EVERY uint32 page index, every chain height: a by-page reply is never an error, reports the frontier height, holds at
+   most `size` heights, and each of them is an existing height of exactly that page's interval *)
+Lemma by_page_bounded h index size r :
+  0 < h < two63 - 1 -> 0 <= index < two32 -> 0 < size <= RpcMaxPageSize ->
+  r = acc_by_page h index size \/ r = mom_by_page h index size ->
+  exists l, r = (0, l, h) /\ Z.of_nat (length l) <= size /\
+            (forall x, In x l -> 1 <= x <= h /\ h - (index + 1) * size < x <= h - index * size).
+Proof.
+  intros Hh Hi Hs Hr.
+  destruct (Z.eq_dec index (two32 - 1)) as [Et|Nt].
+  - subst index. destruct (by_page_top_index h size Hh Hs) as [Ha Hm]. rewrite Ha, Hm in Hr.
+    exists []. split; [destruct Hr; assumption|]. split; [cbn [length]; lia|]. intros x [].
+  - assert (Hlt : index < two32 - 1 \/ h <= index * size) by (left; lia).
+    assert (Ha := acc_by_page_exact h index size Hh Hi Hs Hlt).
+    assert (Hm := mom_by_page_exact h index size Hh Hi Hs Hlt).
+    exists (if h <=? index * size then [] else desc_page h index size).
+    split; [destruct Hr as [Hr|Hr]; subst r; assumption|].
+    destruct (h <=? index * size) eqn:E.
+    + split; [cbn [length]; lia|]. intros x [].
+    + unfold desc_page. unfold RpcMaxPageSize, two63, two32 in *.
+      set (s := Z.max 1 (h - (index + 1) * size + 1)).
+      set (c := h - index * size - s + 1).
+      assert (Hsc : 1 <= s /\ 1 <= c <= size /\ s + c = h - index * size + 1 /\ h - (index + 1) * size < s) by (subst s c; nia).
+      split; [rewrite rev_length, zseq_length; lia|].
+      intros x Hx. rewrite <- in_rev in Hx. rewrite <- (window_inside h) in Hx by lia.
+      apply In_window in Hx. lia.
+Qed.
+
 (* ------------------------------------------------------------ reward / history pagers *)
 Lemma epoch_loop_exact e n : 0 <= Z.of_nat n <= two32 -> e < two63 ->
   epoch_loop e n = if e <? 0 then [] else rev (zseq (Z.max 0 (e - Z.of_nat n + 1)) (Z.to_nat (e - Z.max 0 (e - Z.of_nat n + 1) + 1))).
